@@ -68,6 +68,7 @@ def classes():
         ia: IntArray = IntArray(Int16, 5)
         ua: IntArray = IntArray(Uint8, 4)
         la: IntArray = IntArray(Int64, 3)
+        ia2: IntArray = IntArray(Int16, 5)      # a second array of the same kind in the same message
         fa: FloatArray = FloatArray(Float, 5)
         da: FloatArray = FloatArray(Double, 4)
         st: Struct = Struct(VT_INNER)
@@ -403,6 +404,11 @@ def build_table():
     add("sa", "from", None, ("VT2", "sc"), ACCEPT, None, "sa = other.sc")
     add("ba", "from", None, ("VT2", "bc"), ACCEPT, None, "ba = other.bc")
     add("ia", "from", None, ("VT", "ia"), ACCEPT, None, "ia = another message's ia")
+    # the source is another field of the very same message
+    add("ia", "from", None, ("SELF", "ia2"), ACCEPT, None, "ia = msg.ia2 (same message)")
+    add("ia", "from", None, ("SELF", "fa"), REFUSE, None, "ia = msg.fa (same message, floats)")
+    add("ia", "from", None, ("SELF", "ua"), REFUSE, None, "ia = msg.ua (same message, other kind)")
+    add("fa", "from", None, ("SELF", "ia"), REFUSE, None, "fa = msg.ia (same message)")
     # another validator kind with the same element C type and length
     add("ua", "from", None, ("VT2", "b4"), REFUSE, None, "ua = other.b4 (byte array)")
     add("ba", "from", None, ("VT2", "u6"), REFUSE, None, "ba = other.u6 (uint8 array)")
@@ -524,7 +530,7 @@ def do_assign(msg, case: Case, in_force: bool, res: RunResult, who: str, accesso
     before = bytes(msg)
     other = None
     if case.op == "from":
-        other = C[case.value[0]]()
+        other = C[case.value[0]]() if case.value[0] != "SELF" else msg
         for i in range(len(getattr(other, case.value[1]))):
             try:
                 if case.value[1] in ("sa", "so", "sc"):
@@ -534,6 +540,7 @@ def do_assign(msg, case: Case, in_force: bool, res: RunResult, who: str, accesso
             except Exception:
                 pass
         value = getattr(other, case.value[1])
+        before = bytes(msg)          # (a source inside the same message was filled in just now)
     raised = None
     try:
         if case.op in ("set", "from"):
@@ -790,6 +797,34 @@ class ValidationRun:
         msg._i8 = keep
         return False
 
+    def header_alias_probe(self):
+        """the header's public aliases of validated fields (version -> reserved) are validated like the fields"""
+        import pyrtma
+        from pyrtma.header import TimeCodeMessageHeader
+        res = self.res
+        for cls in (pyrtma.MessageHeader, TimeCodeMessageHeader):
+            h = cls()
+            h.version = 7
+            for bad in (-1, 2 ** 32, 2 ** 40, 1.5, "7", None):
+                before = bytes(h)
+                try:
+                    h.version = bad
+                except Exception:
+                    if bytes(h) != before:
+                        res.add("C09", "not_atomic", f"{cls.__name__}.version={bad!r} raised but the header changed",
+                                sig="not_atomic:header.version")
+                    continue
+                res.add("C09", "out_of_domain_accepted",
+                        f"{cls.__name__}.version={bad!r} was accepted with validation in force (reads back {h.version!r})",
+                        sig="out_of_domain_accepted:header.version")
+                break
+            for good in (0, 1, 2 ** 32 - 1):
+                h.version = good
+                if h.version != good or h.reserved != good:
+                    res.add("C09", "readback_mismatch", f"{cls.__name__}.version={good} read back {h.version!r}",
+                            sig="readback:header.version")
+        res.probes["header_alias_probe"] += 1
+
     def run(self) -> RunResult:
         res = self.res
         ch = self.ch
@@ -800,6 +835,7 @@ class ValidationRun:
         hung = False
         try:
             f = self.forced
+            self.header_alias_probe()
             if "case" in f:
                 msg = VT()
                 fill(msg, f["case"])
